@@ -427,7 +427,36 @@ class Prop:
         self.logfile_part(ctx, flavours)
         if ctx.stop():
             return
+        self.logfile_mt_part(ctx)
+        if ctx.stop():
+            return
         self.asynclog_part(ctx, flavours)
+
+    def logfile_mt_part(self, ctx):
+        """free-running, oracle only: a thread-safe LogFile written by several threads while another one flushes
+        (the locking of the public wrappers is a T1 fact, `threadsafe_paths_locked`; this turns a broken tie into a
+        concrete failing input)"""
+        import shutil
+        import tempfile
+        from ..common import BUILD, sh
+        from ..runner import Case
+        exe = ctx.exe("logfile_mt", "plain")
+        rounds = 3 if ctx.quick() and not ctx.search_mode else 12
+        n = 40000 if ctx.quick() and not ctx.search_mode else 150000
+        for r in range(rounds):
+            d = tempfile.mkdtemp(prefix="lfmt-", dir=BUILD)
+            try:
+                argv = [exe, d, "2", str(n), "1"]
+                rc, out, err = sh(argv, timeout=300)
+            finally:
+                shutil.rmtree(d, ignore_errors=True)
+            ctx.count("logfile_mt:runs")
+            case = Case("logfile_mt", ["logfile_mt <dir> 2 %d 1   # 2 appenders x %d records, 1 flusher, threadSafe=true" % (n, n)], "generated")
+            ctx.record(case, [[out.strip()[:80]]], nontrivial=True)
+            if rc != 0:
+                ctx.oracle_failures.append((case, "mt-lost-or-torn", "thread-safe LogFile, 2 appenders + 1 flusher (free-running, round %d): %s"
+                                            % (r, (out.strip() or err.strip())[:300])))
+                return
 
 
 PROP = Prop()
